@@ -65,12 +65,12 @@ def gen_cases(ck):
     #     call lists x <= 2 cut points, polled after every event; all poll masks for a sample
     pairs = [(a, b) for a in MENU for b in MENU]
     rng.shuffle(pairs)
-    n_pairs = 6 if quick else len(pairs)
+    n_pairs = 14 if quick else 40
     for calls_a, calls_b in pairs[:n_pairs]:
         tags = sg.Tags()
         fa, fb = frames_for(rng, tags, 0, calls_a), frames_for(rng, tags, 1, calls_b)
         sa, sb = sg.wire(fa), sg.wire(fb)
-        for _ in range(2 if quick else 6):
+        for _ in range(2 if quick else 4):
             ca = sorted(rng.sample(salient_cuts(fa), min(rng.randrange(0, 3), len(salient_cuts(fa)))))
             cb = sorted(rng.sample(salient_cuts(fb), min(rng.randrange(0, 3), len(salient_cuts(fb)))))
             seq_a = [["n", 0]] + [["a", 0, ch.hex()] for ch in sg.cut(sa, ca)]
@@ -87,7 +87,7 @@ def gen_cases(ck):
                     {"calls": [calls_a, calls_b], "cuts": [ca, cb], "mask": mask})
     # (c) seeded random: up to 4 connections x up to 5 calls, any cuts, any merge, any polls
     kinds = ["Echo", "Echo", "Fail", "Count", "Ping", "Total", "Sub"]
-    for i in range(500 if quick else 12000):
+    for i in range(1500 if quick else 12000):
         nconn = rng.randrange(1, 5)
         tags = sg.Tags()
         seqs, hyp = [], []
@@ -166,7 +166,7 @@ def main():
         "traces_validated_against_impl": len(out), "service_invocations_observed": ncalls,
         "case_classes": hist, "step": step, "limit_under_hook": limit,
         "spec_checked_connections": sum(len(c.get("hyp", [])) for c in cases),
-        "exhaustive": "all merges of the two connections' (connect, chunk..) sequences for the sampled "
+        "exhaustive_parts": "all merges of the two connections' (connect, chunk..) sequences for the sampled "
                       "call lists and cut sets; all poll masks for one merge each",
     })
     for c in cases[:2] + cases[len(cases) // 2: len(cases) // 2 + 2]:
